@@ -280,7 +280,8 @@ func TestC07(t *testing.T) {
 	p := vlib.InstallPerturber()
 	r.Extra("rule", "fault plans over fixed import graphs (single file, chain of 4, diamond, fan-out of 6; with and without standard imports; faults injected through a ResolverFunc or a SourceResolver accessor): "+
 		"EVERY single fault (file x {error, panic(v), short read failing at byte 0 / 1 / middle / len-1}), every pair of faults on the diamond, a fault on the optional descriptor.proto probe, "+
-		"cancellation inside the k-th resolver call for every k, each x MaxParallelism {1,2,8} x P perturbation seeds (P=2 quick, 16 thorough) + random triples. One case at a time per process so that "+
+		"cancellation inside the k-th resolver call for every k, each x MaxParallelism {1,2,8} x P perturbation seeds (P=2 quick, 16 thorough) + random triples; "+
+		"plus a SourceResolver with 2-3 ImportPaths whose accessor fails (plain error, permission error, panic) for one (path, file) pair that the search reaches, with and without a copy of the file in a later path. One case at a time per process so that "+
 		"leftover goroutines are attributable. non-trivial = plan with >=1 fault or a cancellation; distinct = (graph, plan, parallelism, resolver form)")
 	r.Extra("assumptions", []string{"hang and leak are decided by the logical quiescence criterion on goroutine dumps (compiler frames parked and unchanged), never by elapsed time",
 		"a cancellation that arrives when nothing remains to be done may legitimately let Compile succeed: recorded, not decided"})
@@ -382,6 +383,19 @@ func TestC07(t *testing.T) {
 			pl.CancelAfter = rng.Range(1, g.n+1)
 		}
 		runFaultCase(r, p, id, gn, g, pl, pars[rng.Intn(3)], rng.Bool(), rng.Chance(0.3), r.Seed*31+uint64(i))
+	}
+	// SourceResolver with several import paths and a failing accessor
+	nPaths := r.N(150, 4000)
+	for i := 0; i < nPaths; i++ {
+		if !r.Mine(i) {
+			continue
+		}
+		id := fmt.Sprintf("paths/%d", i)
+		if !r.Want(id) {
+			continue
+		}
+		rng := r.Rng(id)
+		runImportPathCase(r, p, id, rng, pars[rng.Intn(3)])
 	}
 	r.Extra("hook_sites_reached", p.SiteCounts())
 }
